@@ -322,6 +322,13 @@ def run_dev(ctx, sp):
     return [json.loads(v) for v in r.vcases]
 
 
+def run_hist(ctx):
+    r = _tlc(ctx, "Macro", "MC_Macro_sec8_hist.cfg", workers=2, timeout=1200)
+    if not r.ok:
+        raise vlib.MachineryError("sec8_hist failed rc=%s:\n%s" % (r.rc, r.out[-3000:]))
+    return [json.loads(v) for v in r.vcases]
+
+
 def run_sim(ctx, cfg, seed, num):
     # TLC's simulation workers replay the same random choices, so one worker per process, one seed per process
     r = _tlc(ctx, "Macro", cfg, workers=1, simulate=num, depth=6000, seed=seed, timeout=2400, heap="1g")
@@ -352,7 +359,7 @@ def run(ctx):
                        "the real cproc-qbe and compared with TLC's permitted outcomes; non-trivial = at least one macro expanded."
                        % plan["dev"])
     # design level: deviations off => refinement of the declarative definition
-    jobs = [("ref", sp) for sp in plan["ref"]] + [("dev", sp) for sp in plan["dev"]]
+    jobs = [("hist", "sec8")] + [("ref", sp) for sp in plan["ref"]] + [("dev", sp) for sp in plan["dev"]]
     nE, numE = plan["simE"]
     nC, numC = plan["simC"]
     jobs += [("simE", ctx.seed * 1000 + i) for i in range(nE)] + [("simC", ctx.seed * 1000 + 500 + i) for i in range(nC)]
@@ -362,19 +369,22 @@ def run(ctx):
         if kind == "ref":
             run_ref(ctx, arg)
             return []
+        if kind == "hist":
+            return run_hist(ctx)
         if kind == "dev":
             return run_dev(ctx, arg)
         if kind == "simE":
             return run_sim(ctx, "MC_Macro_sim.cfg", arg, numE)
         return run_sim(ctx, "MC_Macro_simC.cfg", arg, numC)
-    jobs.sort(key=lambda j: {"ref": 0, "dev": 0, "simC": 1, "simE": 2}[j[0]])   # long jobs first
+    jobs.sort(key=lambda j: {"hist": 0, "ref": 0, "dev": 0, "simC": 1, "simE": 2}[j[0]])   # long jobs first
     results = vlib.pmap(do, jobs, workers=6)
-    bfs_cases, sim_cases = [], []
+    bfs_cases, sim_cases, hist_cases = [], [], []
     for (kind, arg), cs in zip(jobs, results):
-        (bfs_cases if kind == "dev" else sim_cases).extend(cs)
-    # design-level evidence: each defect of DESIGN.md section 8 is exhibited by the model itself
+        (hist_cases if kind == "hist" else bfs_cases if kind == "dev" else sim_cases).extend(cs)
+    # design-level evidence: each defect of DESIGN.md section 8 (and each later one, repaired or not) is exhibited by
+    # the model itself when its deviation disjunct is switched on (config sec8_hist: all disjuncts, documented inputs)
     cex = {}
-    for c in bfs_cases:
+    for c in hist_cases + bfs_cases:
         if c["tag"] == "dev" and len(c["fired"]) == 1 and c["fired"][0] not in cex:
             cex[c["fired"][0]] = {"source": render(c["prog"]), "PPModel": show(c["model"]), "permitted": [show(d) for d in c["per"]]}
     ctx.cov["design_counterexamples(PPModel with one deviation vs Expand)"] = cex
